@@ -5,7 +5,7 @@ patch="$1"; shift
 cd /repo || exit 2
 if ! git diff --quiet; then echo "/repo has uncommitted changes; refusing"; exit 2; fi
 git apply "$patch" || { echo "patch does not apply"; exit 2; }
-trap 'git -C /repo checkout -- . ; git -C /repo clean -fdq -- rs-matter/src rs-matter/tests 2>/dev/null' EXIT
+trap 'git -C /repo checkout -- . ; git -C /repo clean -fdq -- rs-matter/src rs-matter/tests 2>/dev/null; git -C /verif checkout -- evidence/ 2>/dev/null' EXIT
 cd /verif
 rc=0
 for p in "$@"; do
